@@ -57,7 +57,7 @@ def sortedDict (d : List (Name × Obj)) : List (Name × Obj) :=
   d.mergeSort (fun a b => a.1 ≤ b.1)
 
 /-- pass 1: lowest reachable offset of every store -/
-partial def collect (s : State) (o : Obj) : M Unit := do
+partial def collect (s : VM) (o : Obj) : M Unit := do
   match o with
   | .str r off len => if len > 0 then noteOff r off
   | .arr r off len | .proc r off len =>
@@ -101,7 +101,7 @@ def unchanged (cur : Obj) (init : Option Obj) : Bool :=
   | none => false
 
 mutual
-partial def writeDiff (s : State) (tag : String) (d : List (Name × Obj)) (init : List (Name × Obj)) : M Unit := do
+partial def writeDiff (s : VM) (tag : String) (d : List (Name × Obj)) (init : List (Name × Obj)) : M Unit := do
   emit ("=" ++ tag ++ "{")
   let mut first := true
   for (k, v) in sortedDict d do
@@ -112,14 +112,14 @@ partial def writeDiff (s : State) (tag : String) (d : List (Name × Obj)) (init 
     write s v
   emit "}"
 
-partial def writeList (s : State) (os : List Obj) : M Unit := do
+partial def writeList (s : VM) (os : List Obj) : M Unit := do
   let mut first := true
   for o in os do
     if !first then emit " "
     first := false
     write s o
 
-partial def write (s : State) (o : Obj) : M Unit := do
+partial def write (s : VM) (o : Obj) : M Unit := do
   match o with
   | .file => emit "-file-"
   | .int v => emit (toString v)
@@ -209,14 +209,14 @@ partial def write (s : State) (o : Obj) : M Unit := do
       writeRanges s c.notdefRanges
       emit "]}"
 
-partial def writeChars (s : State) (cs : List CharMap) : M Unit := do
+partial def writeChars (s : VM) (cs : List CharMap) : M Unit := do
   let mut first := true
   for e in cs do
     if !first then emit " "
     first := false
     write s e.src; emit ">"; write s e.dst
 
-partial def writeRanges (s : State) (rs : List RangeMap) : M Unit := do
+partial def writeRanges (s : VM) (rs : List RangeMap) : M Unit := do
   let mut first := true
   for e in rs do
     if !first then emit " "
@@ -237,13 +237,14 @@ def outcomeStr : Res → String
   | .err (.panic site) => "panic:" ++ site
   | .fuel => "fuel"
 
-def rootObjs (s : State) : List Obj :=
+def rootObjs (s : VM) : List Obj :=
   s.stack.reverse ++ s.dictStack.reverse.map Obj.dict ++
   [.dict s.roots.systemDict, .dict s.roots.userDict, .dict s.roots.errorDict, .dict s.roots.fontDirectory,
    .dict s.roots.internalDict, .dict s.roots.resources, .arr refStdEnc 0 256]
 
-def render (s : State) (r : Res) : String :=
-  let head := s!"{outcomeStr r} n={s.numOps} sl={s.stack.length} dl={s.dictStack.length}"
+def render (st : State) (r : Res) : String :=
+  let s := st.vm
+  let head := s!"{outcomeStr r} n={st.numOps} sl={s.stack.length} dl={s.dictStack.length}"
   if r != .ok then head
   else
     let act : M Unit := do
@@ -262,7 +263,7 @@ def render (s : State) (r : Res) : String :=
       emit " enc="; write s (.arr refStdEnc 0 256)
       emit " dsc=["
       let mut first := true
-      for (k, v) in s.dsc do
+      for (k, v) in st.dsc do
         if !first then emit ";"
         first := false
         emit (esc k ++ "=" ++ esc v)
